@@ -9,9 +9,10 @@ STAGES = {
         'quick': [('two-mutations-1-part', 'EmlParse', dict(BUDGET='2', MAXPARTS='1', DEV_SliceFilename='FALSE')),
                   ('one-mutation-2-parts', 'EmlParse', dict(BUDGET='1', MAXPARTS='2', DEV_SliceFilename='FALSE'))],
         'thorough': [('two-mutations-2-parts', 'EmlParse', dict(BUDGET='2', MAXPARTS='2', DEV_SliceFilename='FALSE')),
-                     ('one-mutation-3-parts', 'EmlParse', dict(BUDGET='1', MAXPARTS='3', DEV_SliceFilename='FALSE'))],
+                     ('two-mutations-3-parts', 'EmlParse', dict(BUDGET='2', MAXPARTS='3', DEV_SliceFilename='FALSE'))],
     },
 }
+SEED_PASSES = {('C09', 'thorough'): 3}
 SENS_INVS = ['Total']
 SENSITIVITY = {'C09': [('DEV_SliceFilename', 'EmlParse', dict(BUDGET='2', MAXPARTS='1', DEV_SliceFilename='TRUE'), 'Total')]}
 RULE = ('every abstract EML input of EmlParse.tla within the mutation budget (fields deviating from a normal multipart message) is one scenario; '
